@@ -20,6 +20,16 @@ CHECKS = {
    technique="TLA+ specification of into_rangemap_safe / memory_range constructors / STACK WIN overlap repair (RangeMap.tla) model-checked by TLC with the C08 predicates as invariants; every enumerated entry sequence replayed into 13 kinds of real tables; differing cases and seeded random u64 tables decided by TLC evaluating the predicates on the recorded real tables (Trace_RangeMap.tla, exact u64 on limbs)",
    text="TLC enumerates every sequence of up to MaxLen (base,size,value) entries over a small address domain that contains stand-ins for u64::MAX-1 and u64::MAX, checks BuildTotal/Sound/SortedDisjoint/CompleteForIsolated/UnloadedExact on the specified table, and the harness builds each sequence into the real module, unloaded-module, memory, memory64, memory-info, maps lists (directly and through dumps written by a frozen vendored writer) and symbol-file FUNC/line/STACK CFI/STACK WIN tables and queries every address. Equal to the model's table => predicates hold by the model check; otherwise TLC evaluates the predicates on the observed real table (violation) or reports drift. Random u64 tables are observed and checked the same way.",
    note="Trusted: TLC, RangeMap.tla/Trace_RangeMap.tla, Words.tla (self-tested each run), the order-isomorphism between the small domain and u64, harness/src/rm.rs (plumbing only), frozen writer vendor/vf-synth. Completeness is checked at probed addresses only (whole small domain; boundaries +-1 for random tables). A fix: commit (d8a0445) repaired ranges ending at 2^64-1."),
+ "C09": dict(
+   level="model_checking", design_ref="DESIGN.md section 5 'C10 / C09'",
+   technique="TLA+ specification of the SymbolFile::parse loop + circular::Buffer (SymStream.tla) model-checked by TLC (window bound, termination measure, long-line handling) at small constants and at the real capacity ratio; TLC-enumerated chunk schedules replayed on the real parser and grammar-generated/corrupted files under seeded chunkings trace-validated by TLC at the real constants (Trace_SymStream.tla) with the C09 monitors",
+   text="The streaming loop is an explicit state machine; TLC checks on every input string up to a length bound and every chunk schedule that the window never exceeds MaxCap, that the number of iterations is bounded, and that an over-long line never fails the parse by itself. The real parser is bound to it by an event log taken from outside (slice length offered to the reader = cap-end, bytes returned, callback slice lengths, result): every recorded loop iteration must be exactly what SymStream!Iter predicts at the real constants, and the monitors WindowBounded / ReadsBounded / LongLineDropped / no panic / no hang are evaluated by TLC on each validated parse.",
+   note="Trusted: TLC, SymStream.tla (transcribed from mod.rs and circular 0.3.0), the reader/callback wrappers in record_symstream.rs. Heap use of the parsed tables is not modelled (window only). Line-parser totality is exercised by the generated files (all record kinds, numeric extremes, non-UTF-8, CR/LF variants, byte corruption) but only for the sampled inputs."),
+ "C10": dict(
+   level="model_checking", design_ref="DESIGN.md section 5 'C10 / C09'",
+   technique="TLA+ specification of the SymbolFile::parse loop (SymStream.tla); TLC checks ChunkIndependent / OkMeansAll / CallbackPrefix over every input and every chunk schedule at small constants and at capacity ratio 16; enumerated schedules are scaled by 5120 and executed read-for-read on the real parser; seeded random chunkings of generated files; all event logs validated by TLC against SymStream!Iter at the real constants with the C10 monitors",
+   text="TLC explores every way a reader may split every small input and proves, for the loop as specified, that the outcome equals the whole-buffer outcome for inputs with lines below MaxCap/2 and that the callback stream is the input prefix / the whole input on success. The specification is bound to the code in both directions: schedules chosen by TLC are run on the real parser, and real parses under seeded chunkings (whole, 1-byte trickle, random, around each buffer threshold, single split, line-by-line, tiny) are recorded; TLC validates each loop iteration and evaluates ChunkIndependent (vs. from_bytes of the same bytes, tables compared), OkMeansAll and CallbackPrefix (bytes compared) on every parse.",
+   note="Trusted: as C09. The specification carries Repaired=TRUE, i.e. the loop after fix: commit e37a3d0 (the unterminated-tail defect was found by TLC and reproduced on the real code first). parse_async is the same loop text over reqwest chunks; it is exercised by C16's loopback server, not here."),
 }
 
 NA_DEFAULT = "check not built yet (work in progress; DESIGN.md section 5 has the planned specification)"
